@@ -138,7 +138,7 @@ SIZE_NAMES = ["nx_core", "nx_sol", "nx_pf", "nx_sol_inner", "nx_sol_outer", "ny_
               "ny_outer_lower_divertor", "ny_outer_upper_divertor", "ny_inner_sol", "ny_outer_sol"]
 
 
-def build(env, kind, guards, start_upper_outer=False, capture=None, pre=None):
+def build(env, kind, guards, start_upper_outer=False, capture=None, pre=None, pf=(0.9, 0.9)):
     """kind in lsn usn cdn ldn udn. returns (eq, mesh, topo dict, sizes)"""
     eq = tok.TokamakEquilibrium.__new__(tok.TokamakEquilibrium)
     settings = {"y_boundary_guards": guards, "nx_inter_sep": 0 if kind in ("lsn", "usn", "cdn") else 1,
@@ -165,8 +165,7 @@ def build(env, kind, guards, start_upper_outer=False, capture=None, pre=None):
     eq.psi_core = 0.9
     eq.psi_sol = 1.2
     eq.psi_sol_inner = 1.2
-    eq.psi_pf_lower = 0.9
-    eq.psi_pf_upper = 0.9
+    eq.psi_pf_lower, eq.psi_pf_upper = pf
     eq.psi_increasing = True
     eq.psi = (lambda R, Z: eq.psi_sep[0] if (Z < 0) == (eq.x_points[0].Z < 0) else eq.psi_sep[1])
     eq.f_R = eq.f_Z = None
